@@ -163,6 +163,9 @@ Proof.
   apply key_eqb_eq in E. apply kid_of_inj in E. lia.
 Qed.
 
+Lemma flagged_side en sd : tchg (s_chg (gs en sd)) = true -> tstr (s_oid (gs en sd)) = true -> flagged en = true.
+Proof. unfold flagged. destruct sd; simpl; intros -> ->; [apply orb_true_r|reflexivity]. Qed.
+
 Lemma process_event_pres evl g w sd ev rest w' :
   InvP evl g w -> evl sd = ev :: rest -> process_event w sd ev = ROk w' -> InvP (evl_set evl sd rest) g w'.
 Proof.
@@ -222,6 +225,7 @@ Proof.
     + intros x xn Hne Hxn. exists xn. split; [rewrite A1, nth_list_upd_neq by congruence; exact Hxn|apply same_but_prio_refl].
     + intros x Hne. rewrite B1. destruct (Nat.eqb_spec x e); [contradiction|reflexivity].
     + intros _. rewrite B1, Nat.eqb_refl. reflexivity.
+    + intros _. apply (flagged_side en' sd); unfold en'; rewrite gs_ss_same; cbn [w_chg w_ex s_chg s_oid]; [unfold stamp; apply tchg_stamp|rewrite Ho; reflexivity].
     + rewrite C1. unfold stamp, s0. simpl. lia.
     + rewrite C1, D1. apply N.le_refl.
     + rewrite C1. unfold en'.
@@ -267,6 +271,9 @@ Proof.
       * specialize (Hlgs sd). unfold stamp, s0. simpl. lia.
       * unfold maxchg in Hmx. unfold stamp, s0. simpl. destruct sd; simpl in *; lia.
       * unfold stamp. apply tchg_stamp.
+    + intros sd0 _ _ Hp. exfalso. specialize (Hlgs sd0).
+      assert (Hst': stamp <= maxchg en') by (unfold en', maxchg, chgv; destruct sd; simpl; lia).
+      change (getx (commit (with_st w (st_tape s1 []))) e sd0) with (getx w e sd0) in Hp. unfold stamp, s0 in *. simpl in *. lia.
   - (* no entry yet: a new one is made *)
     assert (Ha0: al_get (ostr_k k) (oids s0 sd) = None) by (destruct sd; exact Ea).
     destruct (update_new_eff (env_of (cfg_std 1)) Hleg Hoip s0 sd (ostr_k k) (ProvModel.e_exists ev) File false [TSwap false]
@@ -303,6 +310,7 @@ Proof.
       apply nth_error_Some. unfold s0. simpl. congruence.
     + intros x Hne. rewrite B1. destruct (Nat.eqb_spec x e); [contradiction|reflexivity].
     + intros _. rewrite B1, Nat.eqb_refl. reflexivity.
+    + intros _. apply (flagged_side en' sd); rewrite Hgs; unfold side'; cbn [w_chg w_ex w_oid s_chg s_oid]; [unfold stamp; apply tchg_stamp|reflexivity].
     + rewrite C1. unfold stamp, s0. simpl. lia.
     + rewrite C1, D1. apply N.le_refl.
     + rewrite C1. unfold maxchg, chgv. rewrite Hen'. destruct sd; simpl; lia.
@@ -359,6 +367,10 @@ Proof.
            constructor; rewrite Hgo; cbn [new_side s_otype s_force s_oid s_chg s_path s_hash s_spath s_shash s_ex tchg]; try reflexivity.
            ++ intros _. repeat split.
            ++ intros o Ho'. discriminate.
+    + intros sd0 _ _ Hp. exfalso.
+      assert (Hst': stamp <= maxchg en') by (rewrite Hen'; unfold maxchg, chgv; destruct sd; simpl; lia).
+      change (getx (commit (with_st w (st_tape s1 []))) e sd0) with (getx w e sd0) in Hp.
+      rewrite (i_xlen _ _ _ I e sd0) in Hp by (unfold e, s0; simpl; lia). simpl in Hp. unfold stamp, s0 in *. simpl in *. lia.
 Qed.
 
 (* ------------------------------------------------------------------ the loop and the step *)
@@ -422,6 +434,7 @@ Proof.
   - intros sd0 k Hk Hlt. rewrite Hheap in Hlt. apply (i_cove _ _ _ I sd0 k Hk Hlt).
   - intros sd0 k cs Hg. rewrite Hobj. apply (i_ghost _ _ _ I sd0 k cs Hg).
   - intros e sd0 He. rewrite Hgx. apply (i_xlen _ _ _ I). exact He.
+  - intros e en sd0 He Hn. unfold Seen. rewrite Hgx. apply (i_seen _ _ _ I e en sd0 He Hn).
 Qed.
 
 Theorem intake_pres g w sd w' : Inv g w -> intake w sd = ROk w' -> Inv g w'.
